@@ -26,7 +26,8 @@ KINDS = {
     "dispatch": ("no_such_function_%d(1)", "eval_error", ["runtime_error", "exception"], ("eval_error", None)),
     "arith": ("var q%d = 1 / zero()", "arithmetic_error", ["runtime_error", "exception"], ("arithmetic_error", None)),
 }
-CLAUSE_TYPES = [None, None, "int", "string", "MyErr", "runtime_error", "out_of_range", "exception", "eval_error", "User_Payload", "logic_error",
+BARE = "<bare>"        # the variable-less form: catch { ... }
+CLAUSE_TYPES = [None, None, BARE, "int", "string", "MyErr", "runtime_error", "out_of_range", "exception", "eval_error", "User_Payload", "logic_error",
                 "arithmetic_error"]
 FRAMES = ["def", "lambda", "method", "bind", "for_each", "map", "attr"]
 
@@ -84,7 +85,7 @@ def matches(ctype, kind):
     script, boxed, bases, _ = KINDS[kind]
     if boxed is None:
         return False
-    return ctype is None or ctype == boxed or ctype in bases
+    return ctype is None or ctype == BARE or ctype == boxed or ctype in bases
 
 
 def run_model(stmts, trace):
@@ -151,7 +152,8 @@ def emit(b, stmts, ind):
             _, body, clauses, fin = st
             out += "%stry {\n%s%s}" % (pad, emit(b, body, ind + 1), pad)
             for ctype, cid, cbody in clauses:
-                out += " catch (%s) {\n%s  print(\"c%d\")\n%s%s}" % ((ctype + " e") if ctype else "e", pad, cid, emit(b, cbody, ind + 1), pad)
+                head = "catch" if ctype == BARE else "catch (%s)" % ((ctype + " e") if ctype else "e")
+                out += " %s {\n%s  print(\"c%d\")\n%s%s}" % (head, pad, cid, emit(b, cbody, ind + 1), pad)
             if fin is not None:
                 out += " finally {\n%s%s}" % (emit(b, fin, ind + 1), pad)
             out += "\n"
@@ -184,7 +186,9 @@ def shape(prog):
                 _, body, clauses, fin = st
                 if not clauses:
                     feats.add("try-finally-without-catch")
-                if clauses and all(c[0] is not None for c in clauses):
+                if any(c[0] == BARE for c in clauses):
+                    feats.add("bare-catch")
+                if clauses and all(c[0] not in (None, BARE) for c in clauses):
                     feats.add("only-typed-clauses")
                 if fin is not None:
                     feats.add("finally")
@@ -271,7 +275,7 @@ def run(ctx, tier, seed, scale=1.0):
             ctx.sample({"program": src[:1500], "expected_trace": trace, "expected_outcome": [want_cls, want_detail]})
     if not ctx.samples:
         ctx.sample({"program": progs[0][0][:1500], "expected_trace": progs[0][1]})
-    ctx.rule = ("one case = a generated nest (depth <= 3) of try / 0-3 catch clauses (typed: int, string, script class, runtime_error, out_of_range, "
+    ctx.rule = ("one case = a generated nest (depth <= 3) of try / 0-3 catch clauses (untyped, variable-less `catch { }`, typed: int, string, script class, runtime_error, out_of_range, "
                 "logic_error, exception, eval_error, C++ user type; or untyped) / finally, spread over frames (def, lambda, method, bind, for_each, map, "
                 "attribute-held function), throwing one of 13 kinds at generated positions (try body, catch body, nested function); the printed trace and "
                 "what leaves eval are compared with a reference model; non-trivial iff an exception was thrown and crossed a clause or the eval boundary")
